@@ -18,7 +18,7 @@ BUDGET = {"quick": 540, "thorough": 3000}
 
 BASE_LINKSETS = [["bb"], ["bb", "ang3", "a_c"], ["gt", "pat"], ["lab", "edge_only"], ["circ", "bb"], ["star"], ["rm", "bb"],
                  ["ver2", "lt_sa"], ["bb", "nonedge"], ["dih4", "bb"], ["ord3:>,,>>", "bb"], ["ord3:<,>,", "gt"], ["ord3:*,,**"],
-                 ["repl_type", "sel_type"]]
+                 ["repl_type", "sel_type"], ["dup2", "bb"]]
 
 
 def cases(tier):
@@ -199,8 +199,11 @@ def check_deforder(variant, case, stats):
     for rg in graphs:
         try:
             R.build(spec, rg)
-        except (R.Unspecified, R.Rejected):
+        except R.Rejected:
             continue
+        except R.Unspecified:
+            if "dup2" not in links:       # (the reference does not define duplicate untagged terms; the comparison needs no reference)
+                continue
         base = run_graph(H.parse_ff([("ff", base_ff_text)]), H.build_resgraph(rg))
         variants_texts = []
         for kind, bnames, lnames in orders:
@@ -210,11 +213,17 @@ def check_deforder(variant, case, stats):
         ltxt = "\n".join(F.render_link_ff(l) for l in spec["links"])
         variants_texts.append(("files:blocks|links", [("ff", btxt), ("ff", ltxt)]))
         variants_texts.append(("files:links|blocks", [("ff", ltxt), ("ff", btxt)]))
+        # an unrelated polyply .itp file (block E, not used by the residue graph) read before / after the .ff definitions
+        extra_itp = F.render_block_itp("E", F.BLOCKS["E"])
+        variants_texts.append(("files:ff|itp", [("ff", base_ff_text), ("itp", extra_itp)]))
+        variants_texts.append(("files:itp|ff", [("itp", extra_itp), ("ff", base_ff_text)]))
         for name, texts in variants_texts:
             evals += 1
             got = run_graph(H.parse_ff(texts), H.build_resgraph(rg))
             if got != base:
                 tags = ["links:" + "+".join(links)]
+                if "itp" in name:
+                    tags.append("mixed-ff-itp-files")
                 if "nonedge" in links:
                     tags.append("non-edge-veto-depends-on-earlier-links")
                 what = "exception" if got and got[0] == "EXC" else \
